@@ -5,6 +5,13 @@
 (*  - SimNext: random long programs for -simulate: a statement category is drawn first (weighted), then a *)
 (*             statement; only continuations without an error in pass 1 are taken (errors of later passes *)
 (*             - undefined forward references - remain)                                                   *)
+(*  - PLNext:  Mode "pplistq" / "pplistt": FORWARD / PUBLIC / GLOBAL statements with an argument LIST    *)
+(*             (every kind x every list up to PL.maxArgs arguments x every combination of per-argument    *)
+(*             destinations: none, PARENTn, section name), each placed in a nest of PL.depths sections,   *)
+(*             followed by the definitions of the listed symbols and by probe references from every level *)
+(*             of the nest and from the global level (plain names; for GLOBAL also the composed names).   *)
+(*             Variants: same-named symbols further out (PL.outers); the probes the manual resolves all   *)
+(*             in one text + one text per probe the manual calls undefined (PL.undef).                    *)
 (* Printed per program: the completed text, what the manual demands (Expect) and what the machine does    *)
 (* (errors, words of the last pass, words of one further pass).                                          *)
 EXTENDS Symbols, Json
@@ -38,6 +45,10 @@ Cat(i, c) ==
     [] c = "QREF"       -> Refs({N(w) : w \in SymSp}, Quals \ {NoQ})
     [] c = "CREF"       -> Refs(CompNames, {NoQ, QGlob, QParent(1)})
     [] c = "PP"         -> {[k |-> kk, nm |-> N(w), q |-> q] : kk \in {"FORWARD", "PUBLIC", "GLOBAL"}, w \in SymSp, q \in PPQuals}
+    \* a further argument of the FORWARD / PUBLIC / GLOBAL statement that the text ends with (own destination each)
+    [] c = "PPC"        -> IF prog # <<>> /\ prog[Len(prog)].k \in PPKinds
+                           THEN {[k |-> prog[Len(prog)].k, nm |-> N(w), q |-> q, cont |-> TRUE] : w \in SymSp, q \in PPQuals}
+                           ELSE {}
     [] c = "TDEF"       -> {[k |-> "TDEF", t |-> t] : t \in {"-", "+", "/"}}
     [] c = "TREF"       -> {[k |-> "TREF", t |-> t, c |-> n] : t \in {"-", "+"}, n \in 1..LOCSYMSIGHT}
     [] c = "TDEFX"      -> Defs(i, {DD("lp"), DD("Lp"), Dot("lp"), Dot("Lp")}, {"label", "equ"})
@@ -49,18 +60,20 @@ Cat(i, c) ==
 \* category weights per mode (a sequence: an entry is drawn uniformly)
 Weights ==
   CASE Mode = "scope" -> <<"SECTION", "SECTION", "ENDSECTION", "DEF", "DEF", "DEF", "REF", "REF", "REF", "QREF", "QREF",
-                           "CREF", "PP", "PP">>
+                           "CREF", "PP", "PP", "PPC", "PPC", "PPC", "PPC", "PPC", "PPC">>
     [] Mode = "temp"  -> <<"TDEF", "TDEF", "TDEF", "TREF", "TREF", "TREF", "TDEFX", "TDEFX", "TREFX", "TREFX", "DEF", "REF">>
     [] Mode = "stack" -> <<"DEF", "DEF", "DEF", "REF", "REF", "REF", "STACK", "STACK", "STACK", "STACK", "SECTION", "ENDSECTION">>
     [] Mode = "macro" -> <<"MACBEGIN", "MACEND", "MACEND", "DEF", "DEF", "REF", "REF", "QREF", "TDEF", "TREF", "SECTION",
                            "ENDSECTION", "TDEFX", "TREFX">>
     [] OTHER          -> <<"SECTION", "SECTION", "ENDSECTION", "DEF", "DEF", "DEF", "REF", "REF", "REF", "QREF", "CREF",
-                           "PP", "TDEF", "TREF", "TDEFX", "TREFX", "STACK", "MACBEGIN", "MACEND", "MACEND">>
+                           "PP", "TDEF", "TREF", "TDEFX", "TREFX", "STACK", "MACBEGIN", "MACEND", "MACEND",
+                           "PPC", "PPC", "PPC", "PPC", "PPC", "PPC">>
 
 Allowed(st) ==
   /\ st.k = "SECTION" => Len(s.stk) < MaxDepth
   /\ st.k = "MACBEGIN" => Len(s.mtags) < 2
   /\ st.k = "MACEND" => Len(s.mtags) > 0
+  /\ Cont(st) => prog # <<>> /\ prog[Len(prog)].k = st.k
 
 \* the smallest texts that show the three deviations of the pinned tree (and their clean neighbours); they are
 \* judged like every other text: Expect says what the manual demands
@@ -100,8 +113,74 @@ Witness ==
           [k |-> "REF", nm |-> N("foo"), q |-> QParent(1)], [k |-> "ENDSECTION", n |-> ""], ref(N("foo")),
           [k |-> "ENDSECTION", n |-> ""], ref(NP(<<"aa", "bb", "sym">>))>> >>
 
+\* ---- argument lists of FORWARD / PUBLIC / GLOBAL (Mode "pplistq" / "pplistt") ------------------------------------
+\* the parameter sets of the two tiers.  quals[n] = destinations an argument of a list of n arguments can have:
+\* the forms CodePPSyms / IdentifySection distinguish are none, PARENTn and a section name.
+PL == IF Mode = "pplistq"
+      THEN [depths |-> {3}, maxArgs |-> 2, outers |-> {"none", "top"}, undef |-> "nearest",
+            quals |-> [n \in 1..2 |-> {NoQ, QParent(1), QParent(2), QName("aa")}]]
+      ELSE [depths |-> {2, 3, 4}, maxArgs |-> 3, outers |-> {"none", "top", "glob"}, undef |-> "all",
+            quals |-> [n \in 1..3 |-> IF n = 3 THEN {NoQ, QParent(1), QName("aa")}
+                                      ELSE {NoQ, QParent(0), QParent(1), QParent(2), QParent(3), QName("aa"), QName("bb")}]]
+PLSecs == <<"aa", "bb", "cc", "aa">>            \* the nest; the innermost of depth 4 repeats the name of the outermost
+\* spellings the k-th argument can have: the second may be the first symbol again (another spelling unless -U)
+PLNames(k) == CASE k = 1 -> {"sym"} [] k = 2 -> {"foo", "Sym"} [] OTHER -> {"Foo"}
+PLOpen(d) == [k \in 1..d |-> [k |-> "SECTION", n |-> PLSecs[k]]]
+PLDepth == Cardinality({i \in 1..Len(prog) : prog[i].k = "SECTION"})
+PLList == SelectSeq(prog, LAMBDA st : st.k \in PPKinds)
+
+RECURSIVE PickFrom(_, _, _)
+PickFrom(p, K, i) == IF i > Len(p) THEN <<>> ELSE (IF i \in K THEN <<p[i]>> ELSE <<>>) \o PickFrom(p, K, i + 1)
+RECURSIVE DistinctBy(_, _)         \* the spellings of a sequence that denote different symbols, first occurrence kept
+DistinctBy(ws, seen) ==
+  IF ws = <<>> THEN <<>>
+  ELSE IF Fold(cs, Head(ws)) \in seen THEN DistinctBy(Tail(ws), seen)
+  ELSE <<Head(ws)>> \o DistinctBy(Tail(ws), seen \cup {Fold(cs, Head(ws))})
+RECURSIVE Flat(_)
+Flat(ss) == IF ss = <<>> THEN <<>> ELSE Head(ss) \o Flat(Tail(ss))
+
+\* all texts for the list L (a sequence of PP elements) in a nest of depth d with same-named symbols placed `outer`
+PLTexts(d, L, outer) ==
+  LET ws == DistinctBy([k \in 1..Len(L) |-> L[k].nm.p[1]], {})
+      equ(w, i) == [k |-> "DEF", nm |-> N(w), kind |-> "equ", v |-> Val(i)]
+      odefs == [k \in 1..Len(ws) |-> equ(ws[k], k)]
+      defs == [k \in 1..Len(ws) |-> equ(ws[k], 10 + k)]
+      \* probe names: the listed symbols and, for GLOBAL, the names the copies can have ("the complete name path")
+      pn(w) == <<N(w)>> \o (IF L[1].k = "GLOBAL" THEN [k \in 1..d |-> NP(SubSeq(PLSecs, k, d) \o <<w>>)] ELSE <<>>)
+      probes == Flat([k \in 1..Len(ws) |-> [j \in 1..Len(pn(ws[k])) |-> [k |-> "REF", nm |-> pn(ws[k])[j], q |-> NoQ]]])
+      close == Flat([k \in 1..d |-> <<[k |-> "ENDSECTION", n |-> ""]>> \o probes])
+      P0 == (IF outer = "glob" THEN odefs ELSE <<>>) \o <<PLOpen(d)[1]>> \o (IF outer = "top" THEN odefs ELSE <<>>)
+            \o SubSeq(PLOpen(d), 2, d) \o L \o defs \o probes \o close
+      A0 == Analyse(cs, P0)
+      E0 == Entries(A0)
+      R == {i \in 1..Len(P0) : P0[i].k = "REF"}
+      F == {i \in R : RefAnswer(A0, E0, i).found}
+      \* probes the manual calls undefined: all of them, or ("nearest") per name the innermost one - a lookup from there
+      \* sees every level further out - and composed names only if the manual lets that name exist at all
+      \* (and only in the texts without same-named symbols further out)
+      U == {i \in R \ F : \/ PL.undef = "all"
+                           \/ /\ outer = "none"
+                              /\ ~\E j \in R \ F : j < i /\ P0[j].nm = P0[i].nm
+                              /\ Len(P0[i].nm.p) = 1 \/ \E j \in F : P0[j].nm = P0[i].nm}
+      base == (1..Len(P0)) \ R
+  IN {PickFrom(P0, base \cup F, 1)} \cup {PickFrom(P0, base \cup F \cup {u}, 1) : u \in U}
+
+PLNext ==
+  /\ Mode \in {"pplistq", "pplistt"} /\ mode = "free"
+  /\ LET L == PLList n == Len(L) IN
+       \/ /\ n < PL.maxArgs                            \* one more argument
+          /\ \E kk \in (IF n = 0 THEN PPKinds ELSE {L[1].k}), w \in PLNames(n + 1), q \in PL.quals[n + 1] :
+               /\ \A k \in 1..n : L[k].q \in PL.quals[n + 1]
+               /\ prog' = Append(prog, [k |-> kk, nm |-> N(w), q |-> q, cont |-> n > 0])
+          /\ mode' = "free"
+       \/ /\ n > 0                                     \* the statement ends: definitions and probes follow
+          /\ \E outer \in PL.outers : \E t \in PLTexts(PLDepth, L, outer) : prog' = t
+          /\ mode' = "done"
+  /\ UNCHANGED <<cs, s, ob>>
+
 Init == /\ cs \in CaseModes /\ s = InitS(cs, PINNED) /\ ob = {}
         /\ IF Mode = "witness" THEN mode = "done" /\ \E w \in 1..Len(Witness) : prog = Witness[w]
+           ELSE IF Mode \in {"pplistq", "pplistt"} THEN mode = "free" /\ \E d \in PL.depths : prog = PLOpen(d)
            ELSE mode = "free" /\ prog = <<>>
 
 \* exhaustive alphabet for BFS (small)
@@ -118,7 +197,7 @@ BfsAlphabet(i) ==
                          \cup Defs(i, {N("sym")}, {"label", "equ"}) \cup Refs({N("sym")}, {NoQ, QGlob})
                          \cup {[k |-> "TDEF", t |-> "-"], [k |-> "TREF", t |-> "-", c |-> 1]}
 
-Next == /\ Len(prog) < MaxLen /\ Mode # "witness"
+Next == /\ Len(prog) < MaxLen /\ Mode \notin {"witness", "pplistq", "pplistt"}
         /\ \E st \in BfsAlphabet(Len(prog) + 1) :
              /\ Allowed(st)
              /\ prog' = Append(prog, st)
@@ -158,6 +237,8 @@ Clean(st) == Allowed(st) /\ Step(s, st).errs = s.errs
 Alive(o) == Open(o) /\ (IF o.nm.t = "n" THEN (o.nm.d # "" /\ o.nm.p = s.lastGlob) ELSE o.lg = s.lastGlob)
 OkSet(i, c) == {st \in Cat(i, c) : Clean(st)
                   /\ ((st.k = "DEF" /\ st.nm.t = "n") => ~\E o \in ob : o.kind = "sym" /\ Alive(o))
+                  \* a further argument is only added to a list if its symbol can still be defined where it will go
+                  /\ (Cont(st) => Step(Step(s, st), [k |-> "DEF", nm |-> st.nm, kind |-> "equ", v |-> Val(i)]).errs = s.errs)
                   /\ (st.k \in {"ENDSECTION", "SECTION", "MACBEGIN", "MACEND"} => ~\E o \in ob : Open(o) /\ o.h = s.mom)}
 
 Take(st) == /\ prog' = Append(prog, st) /\ s' = Step(s, st) /\ cs' = cs /\ ob' = {o \in ob : Open(o)} \cup Obligation(st)
